@@ -480,7 +480,9 @@ async fn read_length_and_string<IO: RW>(io: &mut IO) -> Result<String, Error> {
 async fn read_null_terminated_string<IO: RW>(io: &mut IO) -> Result<String, Error> {
     let mut buf = Vec::new();
     io.read_until(0, &mut buf).await.context("read domain")?;
-    buf.pop();
+    if buf.pop() != Some(0) {
+        bail!("unexpected end of stream in null terminated string");
+    }
     Ok(String::from_utf8_lossy(&buf).to_string())
 }
 
